@@ -1,6 +1,8 @@
 //! Verification harness for flurry. Subcommands print one line `JSON {...}` (the result) and,
 //! for each failing input found, a line `FOUND <property> <replay text on one line>`.
 mod api_check;
+mod capacity;
+mod conc;
 mod dump;
 mod hooks;
 mod seq;
@@ -135,6 +137,114 @@ fn cmd_seq(args: &[String]) {
     );
 }
 
+fn cmd_conc(args: &[String]) {
+    // conc <seed> <n_programs> <schedules_per_program> <kinds csv> [prog_index sched_index]
+    use conc::*;
+    use hooks::{Policy, Verdict};
+    let seed: u64 = args[0].parse().unwrap();
+    let n: u64 = args[1].parse().unwrap();
+    let scheds: u64 = args[2].parse().unwrap();
+    let kinds: Vec<u64> = args[3].split(',').map(|x| x.parse().unwrap()).collect();
+    let only: Option<(u64, u64)> = if args.len() >= 6 { Some((args[4].parse().unwrap(), args[5].parse().unwrap())) } else { None };
+    silence_panics();
+    hooks::install();
+    let mut rng = types::SplitMix64(seed ^ 0xC0C0);
+    let mut runs = 0u64;
+    let mut steps = 0u64;
+    let mut lock_waits = 0u64;
+    let mut parks = 0u64;
+    let mut reclaimed = 0u64;
+    let mut resizes = 0u64;
+    let mut helped = 0u64;
+    let mut nontrivial = std::collections::HashSet::<String>::new();
+    let mut verdicts = std::collections::BTreeMap::<String, u64>::new();
+    let mut samples = Vec::new();
+    let mut found = 0u64;
+    let mut distinct_histories = std::collections::HashSet::<u64>::new();
+    for pi in 0..n {
+        let mut prng = rng.fork();
+        let kind = kinds[(pi % kinds.len() as u64) as usize];
+        let prog = gen_program(&mut prng, kind);
+        for si in 0..scheds {
+            let sseed = prng.next();
+            if let Some((op, os)) = only {
+                if op != pi || os != si {
+                    continue;
+                }
+            }
+            let stick = [0u64, 8, 12, 14, 15][(si % 5) as usize];
+            let opts = RunOpts { policy: Policy::Random(types::SplitMix64(sseed), stick), step_limit: 200_000, freeze: None };
+            let r = with_hasher!(prog.hasher, S, { run_program::<S>(&prog, opts) });
+            runs += 1;
+            steps += r.steps;
+            lock_waits += r.lock_waits;
+            parks += r.parks;
+            reclaimed += r.reclaimed;
+            let enters = r.events.iter().filter(|(_, e)| matches!(e, flurry::verif::Event::ResizeEnter { .. })).count() as u64;
+            let helpers = r.events.iter().filter(|(_, e)| matches!(e, flurry::verif::Event::ResizeEnter { initiator: false, .. })).count() as u64;
+            resizes += enters - helpers;
+            helped += helpers;
+            *verdicts.entry(format!("{:?}", r.verdict)).or_insert(0) += 1;
+            let mut fails = r.failures.clone();
+            match r.verdict {
+                Verdict::Deadlock => fails.push(format!("C11: deadlock: every unfinished thread is blocked: {}", r.statuses)),
+                Verdict::StepLimit => fails.push("C11: step limit exceeded (livelock?)".into()),
+                _ => {}
+            }
+            fails.extend(check_history(&prog, &r));
+            fails.extend(check_quiescent(&prog, &r));
+            fails.extend(check_resize_events(&r));
+            fails.extend(check_iterators(&prog, &r));
+            {
+                use std::hash::{Hash, Hasher};
+                let mut h = std::collections::hash_map::DefaultHasher::new();
+                format!("{:?}", r.calls.iter().map(|c| (c.tid, &c.op, &c.out, c.inv, c.res)).collect::<Vec<_>>()).hash(&mut h);
+                distinct_histories.insert(h.finish());
+            }
+            if r.lock_waits + r.parks + helpers > 0 {
+                nontrivial.insert(format!("{}#{}", pi, trace_text(&r.trace)));
+            }
+            if samples.len() < 3 && (helpers > 0 || r.parks > 0) {
+                samples.push(json!({"program": program_text(&prog), "schedule_len": r.trace.len(), "lock_waits": r.lock_waits,
+                                    "parks": r.parks, "resize_helpers": helpers}));
+            }
+            for f in fails.iter().take(2) {
+                found += 1;
+                let tag = if f.starts_with('C') { f[..3].to_string() } else { "C01".to_string() };
+                println!(
+                    "FOUND {} seed={} prog={} sched={} kinds={} || {} || program: {} || trace: {}",
+                    tag, seed, pi, si, args[3], f.replace('\n', " "), program_text(&prog), trace_text(&r.trace)
+                );
+            }
+        }
+    }
+    println!(
+        "JSON {}",
+        json!({"runs": runs, "steps": steps, "lock_waits": lock_waits, "parks": parks, "reclaimed_blocks": reclaimed,
+               "resizes": resizes, "resize_helpers": helped, "distinct_nontrivial": nontrivial.len(),
+               "distinct_histories": distinct_histories.len(), "verdicts": verdicts, "found": found, "samples": samples})
+    );
+}
+
+fn cmd_capacity(args: &[String]) {
+    // capacity <max_c> <thorough:0|1> <out.v>
+    let max_c: u64 = args[0].parse().unwrap();
+    let thorough = args[1] == "1";
+    silence_panics();
+    hooks::install();
+    let r = capacity::run(max_c, thorough);
+    std::fs::write(&args[2], capacity::to_coq(&r)).expect("write");
+    for f in r.failures.iter().take(5) {
+        println!("FOUND C14 {}", f);
+    }
+    println!(
+        "JSON {}",
+        json!({"evaluations": r.evaluations, "sizes": r.sizes.len(), "stamps": r.stamps.len(), "failures": r.failures.len(),
+               "samples": [format!("with_capacity({}) -> {} bins", r.sizes[13].0, r.sizes[13].1),
+                           format!("resize_stamp({}) = {}", r.stamps[4].0, r.stamps[4].1)]})
+    );
+}
+
 fn main() {
     let args: Vec<String> = std::env::args().collect();
     if args.len() < 2 {
@@ -144,6 +254,8 @@ fn main() {
     match args[1].as_str() {
         "api" => cmd_api(&args[2..]),
         "seq" => cmd_seq(&args[2..]),
+        "capacity" => cmd_capacity(&args[2..]),
+        "conc" => cmd_conc(&args[2..]),
         other => {
             eprintln!("unknown subcommand {}", other);
             std::process::exit(2);
